@@ -7,6 +7,8 @@
 From Coq Require Import String List Bool Ascii.
 From C15 Require Import Gen_VersionTable.
 Import ListNotations.
+(* robustness: a regenerated term that makes a tactic run away fails the proof (prove BROKEN) instead of hanging the build *)
+Set Default Timeout 300.
 Open Scope string_scope.
 
 Fixpoint name_of (s : string) : string :=
@@ -158,5 +160,5 @@ Lemma no_noexcept_on_checked_paths_holds : noexcept_checked_paths = [] /\ Nat.le
 Proof. split; reflexivity. Qed.
 (* DataTable::pvAssign / pvRemove(begin,end), DataSelection::Add(begin,end) check every row reference (`rowRef.GetRaw()`), and
    DataSelection::pvSort / pvGroup / pvBinarySearch(columns) check the selection's keeper before touching the raws *)
-Lemma stale_check_sites_hold : forallb (fun r => snd r) stale_check_sites = true /\ Nat.leb 6 (length stale_check_sites) = true.
+Lemma stale_check_sites_hold : forallb (fun r => snd r) stale_check_sites = true /\ Nat.leb 9 (length stale_check_sites) = true.
 Proof. split; vm_compute; reflexivity. Qed.
